@@ -3,7 +3,8 @@
 Engine M over the MIR of the generic `oal_compiler::module::load`: one step of the
 work-list, of the import loops and of the compile loop from an arbitrary state, the
 Loader methods, HashMap, petgraph and Vec operations being uninterpreted.
-Replay oracle: a recording in-memory Loader (drivers/loaddrv) around the real function.
+Replay oracle: a recording in-memory Loader (drivers/loaddrv) around the real function, on 9
+named graphs plus every import graph over 3 modules (4 in the thorough tier).
 """
 import os
 import re
@@ -41,6 +42,122 @@ def build_loaddrv():
     if rc != 0:
         raise RuntimeError("loaddrv build failed:\n" + out[-3000:])
     return os.path.join(tdir, "debug", "loaddrv")
+
+
+def enumerate_graphs(drv, rdir):
+    """Every import graph over main + (N-1) modules (self imports included; N=3 quick: 512 graphs, N=4 without
+    self imports in thorough: 4096), each module's body using one declaration of every module it imports, plus every
+    graph with one extra import of a missing file. Expected from the statement alone: a cycle reachable from main
+    => cycle error; otherwise success with exactly the reachable modules loaded, parsed and compiled once, each after
+    its imports; a reachable missing import (no reachable cycle) => an error naming it."""
+    import itertools
+    N = 4 if tier() == "thorough" else 3
+    names = ["main.oal"] + ["m%d.oal" % i for i in range(1, N)]
+    pairs = [(i, j) for i in range(N) for j in range(N) if (N == 3 or i != j)]
+    cases = []
+    for mask in range(1 << len(pairs)):
+        edges = [pairs[k] for k in range(len(pairs)) if mask >> k & 1]
+        cases.append(("g%d" % mask, edges, None))
+    # missing-import variants: a sample of the acyclic graphs with one import of a file that does not exist
+    for mask in range(0, 1 << len(pairs), 7):
+        edges = [pairs[k] for k in range(len(pairs)) if mask >> k & 1]
+        cases.append(("x%d" % mask, edges, mask % N))
+
+    def reach(edges):
+        seen, work = {0}, [0]
+        while work:
+            v = work.pop()
+            for (a, b) in edges:
+                if a == v and b not in seen:
+                    seen.add(b)
+                    work.append(b)
+        return seen
+
+    def cyclic(edges, nodes):
+        col = {}
+
+        def dfs(v):
+            col[v] = 1
+            for (a, b) in edges:
+                if a == v and b in nodes:
+                    if col.get(b) == 1 or (col.get(b) is None and dfs(b)):
+                        return True
+            col[v] = 2
+            return False
+        return any(col.get(v) is None and dfs(v) for v in sorted(nodes))
+
+    text = []
+    for cname, edges, missing in cases:
+        text.append("##### %s\n" % cname)
+        for i in range(N):
+            imps = [j for (a, j) in edges if a == i]
+            uses = "".join('use "%s";\n' % names[j] for j in imps)
+            if missing == i:
+                uses += 'use "nowhere.oal";\n'
+            rhs = " & ".join(["{}"] + ["t%d" % j for j in imps if j != i and j != 0])
+            body = ("res / on get -> <%s>;\n" % rhs) if i == 0 else ("let t%d = %s;\n" % (i, rhs))
+            text.append("=== %s\n%s%s" % (names[i], uses, body))
+    text = "".join(text)
+    with open(os.path.join(rdir, "all-graphs.txt"), "w") as f:
+        f.write(text)
+    rc, out, t = run([drv], stdin=text, timeout=900, mem_gb=8)
+    res = {}
+    cur = None
+    for line in out.split("\n"):
+        if line.startswith("##### "):
+            cur = line[6:].strip()
+            res[cur] = []
+        elif cur is not None and line:
+            res[cur].append(line)
+    mism = []
+    stats = {"graphs": len(cases), "cyclic": 0, "acyclic": 0, "missing": 0, "driver_rc": rc, "modules": N}
+    if rc != 0:
+        mism.append("all-graphs: driver died (rc=%s)" % rc)
+    for cname, edges, missing in cases:
+        lines = res.get(cname)
+        if not lines:
+            mism.append("graph %s (%s): no output" % (cname, edges))
+            continue
+        last = lines[-1]
+        calls = [l.split() for l in lines[:-1]]
+        loads = [c[1] for c in calls if c[0] == "load"]
+        parses = [c[1] for c in calls if c[0] == "parse"]
+        comps = [c[1] for c in calls if c[0] == "compile"]
+        R = reach(edges)
+        desc = "graph %s imports=%s" % (cname, [(names[a], names[b]) for a, b in edges])
+        if last == "PANIC":
+            mism.append("%s: the loader panics" % desc)
+            continue
+        if len(set(loads)) != len(loads) or len(set(parses)) != len(parses) or len(set(comps)) != len(comps):
+            mism.append("%s: a module is loaded/parsed/compiled more than once (%s / %s)" % (desc, loads, comps))
+            continue
+        if cyclic(edges, R):
+            stats["cyclic"] += 1
+            if missing is not None and missing in R:
+                ok = last.startswith("ERR")     # either error is acceptable
+            else:
+                ok = last.startswith("ERR") and "cycle" in last.lower()
+            if not ok:
+                mism.append("%s: an import cycle is reachable from main but the result is %s" % (desc, last[:80]))
+        elif missing is not None and missing in R:
+            stats["missing"] += 1
+            if not (last.startswith("ERR") and "nowhere.oal" in last):
+                mism.append("%s: a reachable module imports a missing file but the result is %s" % (desc, last[:80]))
+        else:
+            stats["acyclic"] += 1
+            want = {names[i] for i in R}
+            if not last.startswith("OK"):
+                mism.append("%s: acyclic graph rejected: %s" % (desc, last[:80]))
+            elif set(loads) != want or set(comps) != want or set(parses) != want:
+                mism.append("%s: loaded %s compiled %s, expected exactly %s" % (desc, sorted(loads), sorted(comps), sorted(want)))
+            else:
+                for (a, b) in edges:
+                    if a in R and comps.index(names[b]) > comps.index(names[a]):
+                        mism.append("%s: %s compiled before its import %s" % (desc, names[a], names[b]))
+                        break
+        if len(mism) > 12:
+            break
+    return mism[:12], stats
 
 
 def run_graphs(tag="graphs"):
@@ -84,12 +201,13 @@ def run_graphs(tag="graphs"):
         elif expect == "cycle":
             if not (last.startswith("ERR") and "cycle" in last.lower()):
                 mism.append("%s: expected a cycle error, got %s" % (name, last[:100]))
-            if comps:
-                mism.append("%s: modules compiled despite an import cycle: %s" % (name, comps))
         elif expect.startswith("missing:"):
             m = expect.split(":", 1)[1]
             if not (last.startswith("ERR") and m in last):
                 mism.append("%s: expected an error naming %s, got %s" % (name, m, last[:100]))
+    em, ed = enumerate_graphs(drv, rdir)
+    mism += em
+    detail["all-graphs"] = ed
     a, b = detail.get("diamond", {}), detail.get("diamond-reordered-uses", {})
     if a.get("result") != b.get("result") or sorted(a.get("compiles", [])) != sorted(b.get("compiles", [])):
         mism.append("result depends on the order of use statements: %s vs %s" % (a.get("result"), b.get("result")))
@@ -240,7 +358,7 @@ def check():
         else:
             o.inconc("UNCONFIRMED: lemma(s) fail (%s) but the recording loader sees the expected call sequences on all %d graphs" % ("; ".join(bad[:3]), len(detail)))
     elif mism:
-        o.inconc("translator validation failed: recording loader disagrees (%s) although every lemma holds" % mism[:3])
+        o.oracle_only("recording loader disagrees (%s) although every lemma holds" % mism[:3], rdir)
     return o.finish()
 
 
